@@ -8,4 +8,4 @@ Extraction Language OCaml.
 Extraction "c20_model.ml"
   c20_init c20_cfg_current c20_cfg_fixed c20_step_reg c20_run c20_dump Qred
   c20_spec_construct c20_spec_index c20_wfb
-  c20_tv_construct c20_tv_getitem c20_tv_setitem c20_tv_copy c20_tv_assign c20_tv_type c20_qadd c20_mutating c20_target c20_dyn_index c20_construct_buffer c20_iter_loop.
+  c20_tv_construct c20_tv_getitem c20_tv_setitem c20_tv_copy c20_tv_assign c20_tv_type c20_qadd c20_mutating c20_target c20_dyn_index c20_construct_buffer c20_iter_loop c20_xstep c20_xrun c20_npv_gate c20_buffer_request c20_xreadonly.
